@@ -566,7 +566,9 @@ func runC07(c *Ctx) {
 	v := loadVocab(c)
 	exact, lower := keywordSet(v)
 	c.Res.Rule = "structure-aware mutation of generated documents (wrong JSON type per member, nulls, empty containers, dropped/duplicated members and elements, extreme and fractional numbers, case-variant names, odd $ref strings), raw garbage and depth bombs, decoded into each of 17 model types under a watchdog; on success encode, decode, encode and compare bytes; case-fold-colliding inputs checked for totality only; non-trivial = input that decodes; distinct by (type, input)"
-	g := gen.New(c.Rng, v, gen.DefaultOptions())
+	opt := gen.DefaultOptions()
+	opt.XOrder = true // ordering extensions (and differently-cased spellings of them) on property schemas
+	g := gen.New(c.Rng, v, opt)
 	var kinds []string
 	for k := range goKinds {
 		kinds = append(kinds, k)
@@ -594,6 +596,7 @@ func runC07(c *Ctx) {
 		if !sus {
 			corrNorm(c, dst, m)
 		}
+		corrClean(c, dst, []byte(text))
 		if len(c.Res.Samples) < 4 && i%977 == 5 {
 			c.Sample(map[string]interface{}{"target": dst, "input": json.RawMessage(text)})
 		}
@@ -611,6 +614,7 @@ func runC07(c *Ctx) {
 		for _, r := range raws {
 			c.Count(kind+r, false)
 			checkDecodeTotalIdem(c, kind, []byte(r), false, "raw")
+			corrClean(c, kind, []byte(r))
 		}
 		for _, d := range depths {
 			for _, b := range []string{depthBomb(d, "[", "]"), depthBomb(d, `{"a":`, "}") + "", depthBomb(d, `{"items":`, `}`), depthBomb(d, `{"not":`, `}`), depthBomb(d, `{"allOf":[`, `]}`), depthBomb(d, `{"schema":{"properties":{"a":`, `}}}`)} {
